@@ -129,7 +129,8 @@ class NameExpander:
                 if not p_list_str:
                     break
                 if head:
-                    tmpl += head
+                    # (Literal text: escape "%" for the string template.)
+                    tmpl += head.replace('%', '%%')
                 # Get the subset of parameters used in this case.
                 for item in (i.strip() for i in p_list_str.split(',')):
                     pname, sval = REC_P_OFFS.match(item.strip()).groups()
@@ -165,7 +166,7 @@ class NameExpander:
                 else:
                     name = ''
             if tmpl:
-                tmpl += name
+                tmpl += name.replace('%', '%%')
                 self._expand_name(results, tmpl, used_params, spec_vals)
             else:
                 results.append((name.strip(), {}))
